@@ -202,17 +202,15 @@ impl<T: Qcow2IoOps> Qcow2Dev<T> {
         }
 
         let max_allocated: u64 = {
+            // behind the *last* refcount block: the table may have holes,
+            // cluster_is_allocated() copes with them
             let rt = self.reftable.read().await;
-            let mut idx = 0;
+            let idx = (0..rt.entries())
+                .rev()
+                .find(|idx| !rt.get(*idx).is_zero())
+                .map_or(0, |idx| idx + 1);
 
-            while idx < rt.entries() {
-                if rt.get(idx).is_zero() {
-                    break;
-                }
-                idx += 1;
-            }
-
-            ((idx + 1) as u64) << ((info.rb_index_shift as usize) + info.cluster_bits())
+            (idx as u64) << ((info.rb_index_shift as usize) + info.cluster_bits())
         };
 
         log::debug!(
